@@ -360,11 +360,42 @@ def adjudicate(check, t, ob):
         import random
         rnd = random.Random(check.seed + 10)
         names = [pn for pn, pt in f.params if not (f.kind == 'ctor' and pn == 'self')]
-        for attempt in range(6):
+        model = ob.cex if isinstance(ob.cex, dict) else {}
+        if what == 'rebuild':
+            # native: q from the solver's counterexample (then a few fixed vectors), rebuilt from its own magnitude and direction
+            cls = low.record(f.record).template
+            T = low.record(f.record).targs[-1]
+            n = nleaves(low, ('rec', f.record))
+            dn = 'Direction' if n == 3 else 'PlanarDirection'
+            cands = []
+            if all(model.get('q.%d' % i) is not None for i in range(n)):
+                cands.append([Fraction(model['q.%d' % i]) for i in range(n)])
+            cands += [[Fraction(3), Fraction(-4), Fraction(12)][:n], [Fraction(1, 2 ** 40), Fraction(-3, 2 ** 41), Fraction(1, 2 ** 39)][:n],
+                      [Fraction(2 ** 40), Fraction(-3 * 2 ** 39), Fraction(2 ** 41)][:n]]
+            from ..cemit import hexfloat
+            for v in cands:
+                cpp = ('#include <PhQ/%s.hpp>\n#include <cstdio>\n#include <cstring>\n#include <cmath>\nint main() {\n  const %s raw[%d] = {%s};\n'
+                       '  auto q = PhQ::%s<%s>::Zero(); std::memcpy(&q, raw, sizeof raw);\n  PhQ::%s<%s> b(q.Magnitude(), q.%s());\n'
+                       '  %s got[%d]; std::memcpy(got, &b, sizeof got);\n  %s norm = 0; for (int i = 0; i < %d; ++i) norm += raw[i] * raw[i]; norm = std::sqrt(norm);\n'
+                       '  int bad = 0; for (int i = 0; i < %d; ++i) if (!(std::fabs(got[i] - raw[i]) <= 1e-6 * norm)) { std::printf("MISMATCH component %%d: rebuilt %%.17g, original %%.17g\\n", i, (double)got[i], (double)raw[i]); bad++; }\n'
+                       '  return bad ? 1 : 0;\n}\n') % (cls, T, n, ', '.join(hexfloat(x, T) for x in v), cls, T, cls, T, dn, T, n, T, n, n)
+                r, err = replay.build_and_run(cpp, os.path.join(check.work, 'replay'), 'r_' + re.sub(r'\W+', '_', ob.name)[:150])
+                if err:
+                    rec['replay_error'] = err[:600]
+                    break
+                if 'MISMATCH' in r.stdout:
+                    rec.update({'cpp': cpp, 'native_output': r.stdout, 'inputs': {'q': [str(x) for x in v]}, 'mismatch': r.stdout.strip().split('\n')[:4]})
+                    confirmed = True
+                    break
+        for attempt in range(7 if what != 'rebuild' else 0):
             inputs = {}
             for pn in names:
                 k = nleaves(low, dict(f.params)[pn])
                 tm = template_of(low, dict(f.params)[pn])
+                keys = ['%s.%d' % (pn, i) for i in range(k)] if pn != 'self' else ['q.%d' % i for i in range(k)]
+                if attempt == 0 and all(model.get(x) is not None for x in keys):
+                    inputs[pn] = [Fraction(model[x]) for x in keys]       # the solver's counterexample
+                    continue
                 if tm in DIRS:
                     v = [Fraction(3, 13), Fraction(4, 13), Fraction(12, 13)][:k] if k == 3 else [Fraction(3, 5), Fraction(4, 5)]
                 else:
@@ -401,6 +432,21 @@ def adjudicate(check, t, ob):
                 i = 'xyz'.index(f.node.get('name'))
                 if got[0] != float(inputs['self'][i]):
                     bad.append('%s() returns %r, component %d is %r' % (f.node.get('name'), got[0], i, float(inputs['self'][i])))
+            if what == 'scale' and not bad:
+                # the same call on the rescaled input must store the same direction
+                sc_ = Fraction(model['scale']) if attempt == 0 and model.get('scale') is not None else Fraction(1, 2 ** (10 * (attempt + 1)))
+                last = list(inputs)[-1]
+                inputs2 = dict(inputs)
+                inputs2[last] = [sc_ * x for x in inputs[last]]
+                cpp2 = replay.NativeCall(low, f).program(inputs2, includes=default_includes(low, f))
+                r2, err2 = replay.build_and_run(cpp2, os.path.join(check.work, 'replay'), 'r2_' + re.sub(r'\W+', '_', ob.name)[:150])
+                if not err2:
+                    out2 = replay.parse_out(r2.stdout)
+                    got2 = out2.get('RET') if (f.ret != ('void',) or f.kind == 'ctor') else out2.get('POST self')
+                    got2 = [float(x) for x in (got2 or [])][:n]
+                    if any(abs(a - b) > 1e-9 for a, b in zip(d, got2)):
+                        bad.append('direction of x = %r is %r, direction of %r * x is %r' % ([float(x) for x in inputs[last]], d, float(sc_), got2))
+                        cpp = cpp + '\n// ---- second program (rescaled input) ----\n' + cpp2
             if bad:
                 rec.update({'cpp': cpp, 'native_output': r.stdout, 'inputs': {k2: [str(x) for x in v] for k2, v in inputs.items()}, 'mismatch': bad})
                 confirmed = True
